@@ -22,6 +22,7 @@ import (
 	"strconv"
 	"strings"
 	"sync"
+	"testing/iotest"
 	"time"
 
 	"github.com/foxboron/go-uefi/authenticode"
@@ -732,6 +733,29 @@ func c05Concurrent(c *Ctx, cs Case) {
 // The encapsulated content is located with encoding/asn1; it has to be an SpcIndirectDataContent (Authenticode
 // specification: SpcAttributeTypeAndOptionalValue of type SPC_PE_IMAGE_DATAOBJ, then DigestInfo { sha256, digest })
 // whose digest is the SHA-256 of the stream, and the blob has to be what SignPKCS7 must produce for that content.
+// c05StreamKinds: the io.Reader kinds SignAuthenticode is handed the stream through ("" in a case = the first one).
+// The content that is signed is the bytes the reader delivers, however it delivers them: io.Reader allows the last
+// bytes to come together with io.EOF as well as io.EOF in a call of its own, short reads and single bytes.
+var c05StreamKinds = []string{"bytes.Reader", "data-with-eof", "section-over-eof-with-last-read", "one-byte", "half-reads", "bytes.Buffer", "half-reads+data-with-eof"}
+
+func c05Stream(kind string, data []byte) io.Reader {
+	switch kind {
+	case "data-with-eof": // the final bytes and io.EOF in one call
+		return iotest.DataErrReader(bytes.NewReader(data))
+	case "section-over-eof-with-last-read": // an io.SectionReader over a ReaderAt that reports io.EOF with the read that reaches its end
+		return io.NewSectionReader(eofAtEnd{data}, 0, int64(len(data)))
+	case "one-byte":
+		return iotest.OneByteReader(bytes.NewReader(data))
+	case "half-reads":
+		return iotest.HalfReader(bytes.NewReader(data))
+	case "bytes.Buffer":
+		return bytes.NewBuffer(append([]byte{}, data...))
+	case "half-reads+data-with-eof":
+		return iotest.DataErrReader(iotest.HalfReader(bytes.NewReader(data)))
+	}
+	return bytes.NewReader(data)
+}
+
 func c05Authenticode(c *Ctx, cs Case) {
 	bits := int(cs.I("bits"))
 	rsaKey := poolKey(c, bits, int(cs.I("key")))
@@ -740,14 +764,22 @@ func c05Authenticode(c *Ctx, cs Case) {
 	data := detBytes(cs.S("salt"), int(cs.I("len")))
 	c.Count(cs.Key(), true, "sign-authenticode/len"+sizeClass(len(data)))
 	c.Class("signer-kind/" + kind + "/authenticode")
+	rdKind := cs.S("reader")
+	if rdKind == "" {
+		rdKind = c05StreamKinds[0]
+	}
+	c.Class("sign-authenticode/stream-through/" + rdKind)
 	fail := func(what, goObs, spec string) {
+		if rdKind != c05StreamKinds[0] {
+			what += " [the stream was handed over through: " + rdKind + "]"
+		}
 		c.Fail(Failure{Kind: "property", What: "SignAuthenticode: " + what, Case: cs, Go: clip(goObs), Spec: clip(spec)})
 	}
 	t0 := time.Now().UTC().Add(-2 * time.Second)
 	var blob []byte
 	var err error
 	if p, msg := safely(func() {
-		blob, err = authenticode.SignAuthenticode(signerOfKind(kind, rsaKey), cert, bytes.NewReader(data), crypto.SHA256)
+		blob, err = authenticode.SignAuthenticode(signerOfKind(kind, rsaKey), cert, c05Stream(cs.S("reader"), data), crypto.SHA256)
 	}); p || err != nil {
 		fail("panicked or failed on a valid input", fmt.Sprint(msg, err), "")
 		return
@@ -990,6 +1022,23 @@ func c05Gen(c *Ctx) {
 		c05Eval(c, Case{"op": "sign-authenticode", "len": int64(l), "salt": fmt.Sprintf("authenticode-%d-%d", c.Seed, i), "bits": int64(bitsets[i%len(bitsets)]), "key": int64(i % 2),
 			"shape": int64((i * 3) % nsh), "signer": signerKinds[i%len(signerKinds)]})
 	}
+	// ... and through every kind of io.Reader, over stream lengths around the read sizes (each kind with two lengths per
+	// run, rotating; thorough: every kind x every length)
+	{
+		lens := []int{0, 1, 2, 63, 511, 512, 4096, 32768, 32769, 70000, 1<<20 + 1}
+		for k, rk := range c05StreamKinds[1:] {
+			for j, l := range lens {
+				if !c.Thorough && j != (2*k+int(c.Seed))%len(lens) && j != (2*k+5+int(c.Seed))%len(lens) && !(j == 1 && k < 2) {
+					continue
+				}
+				c05Eval(c, Case{"op": "sign-authenticode", "len": int64(l), "salt": fmt.Sprintf("authenticode-stream-%d-%d-%d", c.Seed, k, j), "bits": int64(2048), "key": int64((k + j) % 2),
+					"shape": int64((k + 2*j) % nsh), "signer": signerKinds[(k+j)%len(signerKinds)], "reader": rk})
+				if c.NFailures() >= 6 {
+					return
+				}
+			}
+		}
+	}
 	// several calls in flight at the same time: 2, 4, 8 and 16 goroutines, large contents (64 KiB: hashing the content
 	// is where a call spends its time before it reaches the caller's signer), small ones and a mix, one key and
 	// certificate for all or one per goroutine, data and a non-data content type
@@ -1015,7 +1064,7 @@ func c05Gen(c *Ctx) {
 
 func init() {
 	register("C05", &PropDef{
-		Rule:   "SignPKCS7 handed five kinds of caller-supplied crypto.Signer holding the same RSA key (*rsa.PrivateKey; a wrapper offering only Sign and Public; one that additionally offers SignMessage(rand, msg, opts) with message semantics, i.e. hashes msg itself like crypto.MessageSigner / token and KMS wrappers; one whose Public() returns the key by value instead of by pointer; a pointer-receiver holder whose Sign chooses PSS or PKCS#1 v1.5 from the options it is given), rotating over content types {data, SpcIndirectDataContent, 2.999.1234567.1, 0.39.16383.16384, signedData, and two enterprise OIDs of 14 and 38 content octets (signed attributes longer than 127 bytes)} x content lengths {0,1,2,127,128,255,256,1000,65535,65536,70000,random} x RSA 2048 (thorough: 3072, 4096) x 21 certificates (the 16 shapes of the harness: self-signed and issued by an RSA CA with issuer different from subject; short/long/multi-RDN/UTF-8/hand-encoded issuers; serials 1,127,128,255,256, high-bit, leading-zero source bytes, 20 bytes, 2^159; the certificate itself signed with SHA-256/384/512; and 5 by WHO issued them: an RSA signing certificate issued by an ECDSA P-256 CA, by an ECDSA P-384 CA with SHA-384, by an Ed25519 CA, by an RSA CA signing with RSASSA-PSS, and self-signed with RSASSA-PSS - the certificate's own signatureAlgorithm then differs from the kind of the subject's key, which is what the SignerInfo's digestEncryptionAlgorithm has to describe: rsaEncryption / sha256WithRSAEncryption, read off the blob with encoding/asn1, and go.mozilla.org/pkcs7 and OpenSSL verify by that field; each of the five runs as detached data [OpenSSL CLI too], as an attached non-data type and through SignAuthenticode, and in the rotation). Contents that are themselves DER, each as data and (where a run of complete values) under a non-data type: exactly one complete value - a SEQUENCE of 0, 3, 127, 128, 300 and 70000 content octets, a SEQUENCE in a SEQUENCE, a SET, an OCTET STRING, a certificate, a SignedData made by the library (a signature over a signature) -, two SEQUENCEs, and near misses (a SEQUENCE followed by one byte, a SEQUENCE header announcing more than follows, a non-minimal length). authenticode.SignAuthenticode over streams of 0, 1, 63, 64, 4096 and 70000 bytes (the encapsulated SpcIndirectDataContent located with encoding/asn1 must carry the SHA-256 of the stream, and the blob is judged as SignPKCS7's for that content). Concurrent use: 2, 4, 8 and 16 goroutines x 6 calls each [thorough: 24] with contents of 64 KiB / mixed 64 KiB, 1, 70000, 300 / 0 and 17 bytes, one key and certificate for all or one per goroutine, through a caller-supplied crypto.Signer that holds every Sign call until the Sign calls of all running goroutines have arrived (so all calls are inside SignPKCS7 together and the next calls hash their contents at the same moment); each call must return what it returns alone: every blob is judged against the content of ITS call by all Go-side oracles, one per goroutine also by the Lean models. Each blob is checked, with encoding/asn1 alone, for every clause of the statement (signedData; SHA-256 as digest algorithm of SignedData and signer entry; content type; attached content = one SEQUENCE holding exactly the supplied content / detached = none; the certificate embedded; one signer entry naming issuer and serial; RSA; signed contentType, signingTime and messageDigest = SHA-256 of the SUPPLIED content), detached data signatures of up to 1000 octets are given to openssl smime -verify with the content and with different content when the CLI exists; each blob is checked for strict DER (minimal lengths, SET OF order) by an independent walker, verified by the library, by an encoding/asn1+crypto/rsa verifier, by go.mozilla.org/pkcs7 and by the Lean Spec, with the right and with different content, and reproduced byte for byte by the Lean builder model. Signing certificates by how their validity period relates to the time of signing (the library stamps the current time into signingTime): covering it, expired a year / a second before, valid only from a second / a year after, ending / starting at that very second, a single instant, no validity period at all, only NotBefore missing - self-signed and CA-issued, made at the time of the call (quick: the first five relations in both forms with detached data and an attached non-data type, the others alternating; thorough: all; SignAuthenticode for every other one): the output must pass the library's own verification and every other oracle like any other certificate's (expiry plays no part; go.mozilla.org/pkcs7 is handed the certificate with an unbounded period, OpenSSL runs with -noverify). Every case is non-trivial; distinct = distinct (oid, content, key, shape, signer kind) resp. distinct concurrent schedule / stream.",
+		Rule:   "SignPKCS7 handed five kinds of caller-supplied crypto.Signer holding the same RSA key (*rsa.PrivateKey; a wrapper offering only Sign and Public; one that additionally offers SignMessage(rand, msg, opts) with message semantics, i.e. hashes msg itself like crypto.MessageSigner / token and KMS wrappers; one whose Public() returns the key by value instead of by pointer; a pointer-receiver holder whose Sign chooses PSS or PKCS#1 v1.5 from the options it is given), rotating over content types {data, SpcIndirectDataContent, 2.999.1234567.1, 0.39.16383.16384, signedData, and two enterprise OIDs of 14 and 38 content octets (signed attributes longer than 127 bytes)} x content lengths {0,1,2,127,128,255,256,1000,65535,65536,70000,random} x RSA 2048 (thorough: 3072, 4096) x 21 certificates (the 16 shapes of the harness: self-signed and issued by an RSA CA with issuer different from subject; short/long/multi-RDN/UTF-8/hand-encoded issuers; serials 1,127,128,255,256, high-bit, leading-zero source bytes, 20 bytes, 2^159; the certificate itself signed with SHA-256/384/512; and 5 by WHO issued them: an RSA signing certificate issued by an ECDSA P-256 CA, by an ECDSA P-384 CA with SHA-384, by an Ed25519 CA, by an RSA CA signing with RSASSA-PSS, and self-signed with RSASSA-PSS - the certificate's own signatureAlgorithm then differs from the kind of the subject's key, which is what the SignerInfo's digestEncryptionAlgorithm has to describe: rsaEncryption / sha256WithRSAEncryption, read off the blob with encoding/asn1, and go.mozilla.org/pkcs7 and OpenSSL verify by that field; each of the five runs as detached data [OpenSSL CLI too], as an attached non-data type and through SignAuthenticode, and in the rotation). Contents that are themselves DER, each as data and (where a run of complete values) under a non-data type: exactly one complete value - a SEQUENCE of 0, 3, 127, 128, 300 and 70000 content octets, a SEQUENCE in a SEQUENCE, a SET, an OCTET STRING, a certificate, a SignedData made by the library (a signature over a signature) -, two SEQUENCEs, and near misses (a SEQUENCE followed by one byte, a SEQUENCE header announcing more than follows, a non-minimal length). authenticode.SignAuthenticode over streams of 0, 1, 63, 64, 4096 and 70000 bytes (the encapsulated SpcIndirectDataContent located with encoding/asn1 must carry the SHA-256 of the stream, and the blob is judged as SignPKCS7's for that content). Concurrent use: 2, 4, 8 and 16 goroutines x 6 calls each [thorough: 24] with contents of 64 KiB / mixed 64 KiB, 1, 70000, 300 / 0 and 17 bytes, one key and certificate for all or one per goroutine, through a caller-supplied crypto.Signer that holds every Sign call until the Sign calls of all running goroutines have arrived (so all calls are inside SignPKCS7 together and the next calls hash their contents at the same moment); each call must return what it returns alone: every blob is judged against the content of ITS call by all Go-side oracles, one per goroutine also by the Lean models. Each blob is checked, with encoding/asn1 alone, for every clause of the statement (signedData; SHA-256 as digest algorithm of SignedData and signer entry; content type; attached content = one SEQUENCE holding exactly the supplied content / detached = none; the certificate embedded; one signer entry naming issuer and serial; RSA; signed contentType, signingTime and messageDigest = SHA-256 of the SUPPLIED content), detached data signatures of up to 1000 octets are given to openssl smime -verify with the content and with different content when the CLI exists; each blob is checked for strict DER (minimal lengths, SET OF order) by an independent walker, verified by the library, by an encoding/asn1+crypto/rsa verifier, by go.mozilla.org/pkcs7 and by the Lean Spec, with the right and with different content, and reproduced byte for byte by the Lean builder model. Signing certificates by how their validity period relates to the time of signing (the library stamps the current time into signingTime): covering it, expired a year / a second before, valid only from a second / a year after, ending / starting at that very second, a single instant, no validity period at all, only NotBefore missing - self-signed and CA-issued, made at the time of the call (quick: the first five relations in both forms with detached data and an attached non-data type, the others alternating; thorough: all; SignAuthenticode for every other one): the output must pass the library's own verification and every other oracle like any other certificate's (expiry plays no part; go.mozilla.org/pkcs7 is handed the certificate with an unbounded period, OpenSSL runs with -noverify). Every case is non-trivial; distinct = distinct (oid, content, key, shape, signer kind) resp. distinct concurrent schedule / stream. The stream is the bytes the io.Reader delivers, however it delivers them: besides bytes.Reader, SignAuthenticode is handed streams of {0,1,2,63,511,512,4096,32768,32769,70000, 1 MiB + 1} bytes (quick: two or three lengths per kind, rotating with the run's seed; thorough: all) through a reader that returns its LAST BYTES TOGETHER WITH io.EOF (iotest.DataErrReader), an io.SectionReader over a ReaderAt that reports io.EOF with the read that reaches its end, one byte per Read, half reads, half reads ending with data + io.EOF, and a bytes.Buffer; the embedded digest must be the SHA-256 of all bytes delivered and every other oracle applies unchanged.",
 		Assume: []string{"RSA PKCS#1 v1.5 signing is deterministic, so the builder model is given the signature and the signing time read back from the blob", "x509.ParseCertificates is opaque (its verdict is handed to the model)"},
 		Eval:   c05Eval, Gen: c05Gen,
 	})
